@@ -1,0 +1,38 @@
+//go:build verif
+
+// Package verifhook provides verification hook points. With the "verif" build
+// tag the functions dispatch to an installable handler; with nothing installed
+// they are no-ops.
+package verifhook
+
+import "sync/atomic"
+
+// Handler is invoked at every hook point. It may block (scheduler gate), kill
+// the process (crash injection) or, for Fault points, return an error to inject.
+type Handler func(point string, fault bool, kv []any) error
+
+var handler atomic.Pointer[Handler]
+
+// SetHandler installs h (nil uninstalls).
+func SetHandler(h Handler) {
+	if h == nil {
+		handler.Store(nil)
+		return
+	}
+	handler.Store(&h)
+}
+
+// At marks a named point.
+func At(point string, kv ...any) {
+	if h := handler.Load(); h != nil {
+		_ = (*h)(point, false, kv)
+	}
+}
+
+// Fault marks a named point at which the handler may inject an error.
+func Fault(point string, kv ...any) error {
+	if h := handler.Load(); h != nil {
+		return (*h)(point, true, kv)
+	}
+	return nil
+}
